@@ -26,7 +26,7 @@ def run(ctx):
     steps_f, stress_f = ctx.path("steps.ndjson"), ctx.path("stress.ndjson")
     ctx.harness(binary, ["-plans", pdir, "-out", steps_f, "-stress", stress_f, "-seed", ctx.seed,
                          "-rand", ctx.q(110, 3000), "-nstress", ctx.q(25, 500),
-                         "-ncold", ctx.q(50, 800)],
+                         "-ncold", ctx.q(50, 800), "-nexit", ctx.q(1000, 20000), "-nlong", ctx.q(1, 12)],
                 traces=[steps_f, stress_f])
     steps = ctx.load_traces(steps_f)
     stress = ctx.load_traces(stress_f)
